@@ -1,8 +1,10 @@
 package rules
 
 import (
+	"fmt"
 	"go/token"
 	"go/types"
+	"os"
 	"regexp"
 	"strconv"
 	"strings"
@@ -751,6 +753,16 @@ func ruleNoFormatUserValue(rule string) RuleFn {
 							if !ok {
 								continue
 							}
+							if mi, isMI := st.Val.(*ssa.MakeInterface); isMI && an.IsNamed(mi.X.Type(), "reflect", "Value") {
+								// a reflect.Value holds whatever a user function returned: fmt prints the value inside it
+								n++
+								if selfFreeGate(fn, mi.X, k) {
+									c.OK(rule, "no reflect.Value is handed to a fmt formatting function in "+an.ShortName(fn), "only after containsItself said no", k)
+									continue
+								}
+								c.Bad(rule, "no reflect.Value is handed to a fmt formatting function in "+an.ShortName(fn), "a cached value (whatever a constructor returned) is formatted with "+nm+": a value that contains itself (a map stored in itself, a slice of interfaces holding itself) makes Container.String / Scope.String overflow the stack - a fatal error no recover can catch - although every call that built this state succeeded", k, nil)
+								continue
+							}
 							pn := an.Norm(st.Val)
 							if !regexp.MustCompile(`^p:[A-Za-z_0-9]+$`).MatchString(pn) {
 								continue
@@ -780,10 +792,202 @@ func ruleNoFormatUserValue(rule string) RuleFn {
 				}
 			})
 		}
+		// a reflect.Value that leaves a function as an interface{} (Scope.String prints what printable returns)
+		for _, fn := range c.P.Funcs {
+			if fn.Pkg == nil || fn.Pkg.Pkg.Path() != "go.uber.org/dig" || fn.Signature.Results().Len() != 1 {
+				continue
+			}
+			if it, isI := fn.Signature.Results().At(0).Type().Underlying().(*types.Interface); !isI || it.NumMethods() != 0 {
+				continue
+			}
+			an.Instrs(fn, func(in ssa.Instruction) {
+				ret, ok := in.(*ssa.Return)
+				if !ok || len(ret.Results) != 1 {
+					return
+				}
+				for _, rv := range phiLeaves(ret.Results[0]) {
+					mi, isMI := rv.(*ssa.MakeInterface)
+					if !isMI || !an.IsNamed(mi.X.Type(), "reflect", "Value") {
+						continue
+					}
+					n++
+					at := ssa.Instruction(mi)
+					c.Check(selfFreeGate(fn, mi.X, at), rule, an.ShortName(fn)+" returns a container value for printing only after containsItself said no", "gated by containsItself", "a cached value (whatever a constructor returned) is handed on for formatting although it was not checked for containing itself: Provide(func() M { m := M{}; m[\"self\"] = m; return m }), Invoke(func(M){}), c.String() overflows the stack inside fmt - a fatal error no recover can catch", at, nil)
+				}
+			})
+		}
+		if cf := c.P.Func("dig.containsItself"); cf != nil {
+			// fmt follows exactly these kinds without looking for cycles; each must be followed by the search too
+			for _, kd := range []struct {
+				name string
+				k    int
+			}{{"Array", 17}, {"Interface", 20}, {"Map", 21}, {"Ptr", 22}, {"Slice", 23}, {"Struct", 25}} {
+				// a recursive call is reachable from the entry by a path that assumes the kind: it takes no false edge of
+				// a test for this kind and no true edge of a test for another one
+				kre := regexp.MustCompile(`\.Kind\(\) (==|!=) (\d+)\)$`)
+				tested := false
+				block := an.EdgesWhere(cf, func(ft an.Fact) bool {
+					if os.Getenv("VERIF_DEBUG_FACTS") == "dig.containsItself" {
+						fmt.Fprintln(os.Stderr, "fact:", ft.S)
+					}
+					// ... and that assumes a top-level value that is neither nil nor empty
+					switch ft.S {
+					case "p:v.IsNil()", "(p:v.Len() == 0)", "!(p:v.Len() != 0)", "(p:v.Len() <= 0)", "!(p:v.Len() > 0)", "(p:v.Len() < 1)",
+						"(p:depth > 0)", "!(p:depth <= 0)", "(p:depth != 0)", "!(p:depth == 0)", "(p:depth >= 1)":
+						return true
+					}
+					m := kre.FindStringSubmatch(ft.S)
+					if m == nil {
+						return false
+					}
+					neg := strings.HasPrefix(ft.S, "!") != (m[1] == "!=")
+					same := m[2] == strconv.Itoa(kd.k)
+					if same && !neg {
+						tested = true
+					}
+					return same == neg
+				})
+				self := func(i ssa.Instruction) bool {
+					k, ok := i.(*ssa.Call)
+					return ok && an.CalleeName(k) == "dig.containsItself"
+				}
+				hit, _ := an.PathTo(cf, nil, self, an.NewGates().AddEdges(block...))
+				followed := tested && hit != nil
+				if followed && (kd.k == 21 || kd.k == 22 || kd.k == 23) {
+					// what is followed by reference is remembered first: no path to the recursive call avoids
+					// onPath[ref] = true, and none passes the "seen before" edge of the look-up
+					var marks []ssa.Instruction
+					an.Instrs(cf, func(in ssa.Instruction) {
+						if mu, ok := in.(*ssa.MapUpdate); ok && an.Norm(mu.Map) == "p:onPath" {
+							if k, isK := mu.Value.(*ssa.Const); isK && k.Value != nil && k.Value.String() == "true" {
+								marks = append(marks, in)
+							}
+						}
+					})
+					seen := an.BoolEdges(cf, func(v ssa.Value) bool {
+						ex, ok := v.(*ssa.Extract)
+						if !ok || ex.Index != 1 {
+							return false
+						}
+						lk, ok := ex.Tuple.(*ssa.Lookup)
+						return ok && lk.CommaOk && an.Norm(lk.X) == "p:onPath"
+					}, true)
+					unmarked, _ := an.PathTo(cf, nil, self, an.NewGates().AddEdges(block...).AddInstr(marks...))
+					past := false
+					for _, e := range seen {
+						first := e.From.Succs[e.Succ].Instrs[0]
+						if self(first) {
+							past = true
+						} else if h, _ := an.PathTo(cf, first, self, nil); h != nil {
+							past = true
+						}
+					}
+					ok := len(marks) > 0 && len(seen) > 0 && unmarked == nil && !past
+					why := "the search follows a " + kd.name + " without remembering it (onPath[ref] = true before the recursive call, and a stop where the look-up finds it again): on a value that contains itself the search itself never ends - Scope.String overflows the stack"
+					if ok {
+						c.OKAt(rule, "containsItself remembers a "+kd.name+" before it looks inside", "marked, and the search stops at a marked one", c.P.Pos(cf.Pos()))
+					} else {
+						c.BadAt(rule, "containsItself remembers a "+kd.name+" before it looks inside", why, c.P.Pos(cf.Pos()), nil)
+					}
+				}
+				if followed {
+					c.OKAt(rule, "containsItself follows values of kind "+kd.name, "recursive call below the Kind test", c.P.Pos(cf.Pos()))
+				} else {
+					c.BadAt(rule, "containsItself follows values of kind "+kd.name, "fmt prints what is inside a "+kd.name+" without looking for cycles, the search for a value that contains itself does not look there: such a value is declared printable and Scope.String overflows the stack", c.P.Pos(cf.Pos()), nil)
+				}
+			}
+		}
+		if cf := c.P.Func("dig.containsItself"); cf != nil {
+			isSelf := func(v ssa.Value) bool {
+				k, ok := v.(*ssa.Call)
+				return ok && an.CalleeName(k) == "dig.containsItself"
+			}
+			// a hit below is a hit: no path from "the recursive call said yes" to an answer of no
+			saysNo := func(i ssa.Instruction) bool {
+				isFalse := func(v ssa.Value) bool {
+					k, ok := v.(*ssa.Const)
+					return ok && k.Value != nil && k.Value.String() == "false"
+				}
+				switch i := i.(type) {
+				case *ssa.Return:
+					return len(i.Results) == 1 && isFalse(i.Results[0])
+				case *ssa.Store:
+					_, isAlloc := i.Addr.(*ssa.Alloc)
+					return isAlloc && isFalse(i.Val) && types.Identical(i.Val.Type(), types.Typ[types.Bool])
+				}
+				return false
+			}
+			yes := an.BoolEdges(cf, isSelf, true)
+			good := len(yes) > 0
+			var at ssa.Instruction
+			for _, e := range yes {
+				first := e.From.Succs[e.Succ].Instrs[0]
+				if saysNo(first) {
+					good, at = false, first
+				} else if hit, _ := an.PathTo(cf, first, saysNo, nil); hit != nil {
+					good, at = false, hit
+				}
+			}
+			if at == nil {
+				at = cf.Blocks[0].Instrs[0]
+			}
+			c.Check(good, rule, "containsItself answers yes when a recursive call did", "every yes edge of a recursive call leads to a yes", "a part of the value was found to contain the value being printed and the search goes on or answers no: the value is declared printable and Scope.String overflows the stack", at, nil)
+			for _, l := range allLoops(cf) {
+				has := false
+				for b := range l.body {
+					for _, in := range b.Instrs {
+						if v, ok := in.(ssa.Value); ok && isSelf(v) {
+							has = true
+						}
+					}
+				}
+				if !has {
+					continue
+				}
+				all, why := loopCoversAll(l)
+				c.Check(all, rule, "containsItself looks at every element: loop "+l.over, "whole sequence", "an element is left out of the search ("+why+"): a value that contains itself there is declared printable and Scope.String overflows the stack", l.header.Instrs[0], nil)
+			}
+		}
 		if n == 0 {
 			c.OKAt(rule, "no interface{} parameter is handed to a fmt formatting function", "0 sites", "-")
 		}
 	}
+}
+
+// phiLeaves returns the non-phi values v can be.
+func phiLeaves(v ssa.Value) []ssa.Value {
+	var out []ssa.Value
+	seen := map[ssa.Value]bool{}
+	var walk func(ssa.Value)
+	walk = func(v ssa.Value) {
+		if seen[v] {
+			return
+		}
+		seen[v] = true
+		if p, ok := v.(*ssa.Phi); ok {
+			for _, e := range p.Edges {
+				walk(e)
+			}
+			return
+		}
+		out = append(out, v)
+	}
+	walk(v)
+	return out
+}
+
+// selfFreeGate: at can be reached only over the "false" edge of a call dig.containsItself(v, ...).
+func selfFreeGate(fn *ssa.Function, v ssa.Value, at ssa.Instruction) bool {
+	want := an.Norm(v)
+	gate := an.BoolEdges(fn, func(x ssa.Value) bool {
+		k, ok := x.(*ssa.Call)
+		return ok && an.CalleeName(k) == "dig.containsItself" && len(k.Call.Args) > 0 && an.Norm(k.Call.Args[0]) == want
+	}, false)
+	if len(gate) == 0 {
+		return false
+	}
+	hit, _ := an.PathTo(fn, nil, an.IsInstr(at), an.NewGates().AddEdges(gate...))
+	return hit == nil
 }
 
 // ---------------------------------------------------------------------------
@@ -1151,5 +1355,54 @@ func ruleDecoratorMarked(rule string) RuleFn {
 			}
 		}
 		c.Check(good, rule, "decoratorNode.Call marks the error its function returned", "return errDecoratorFailed{Reason: err}", why+": a decorator returning the dig error of another container (a nested Invoke's failure) has it taken apart by RootCause, makes IsCycleDetected true for another container's cycle, is swallowed by an optional parameter, and has the foreign missing type drawn by Visualize - the very defects already repaired for constructors", nil, nil)
+	}
+}
+
+// ruleGroupNearest (X-group-nearest).
+func ruleGroupNearest(rule string) RuleFn {
+	return func(c *an.Ctx) {
+		c.Rule(rule, "X-group-nearest: a value group is decorated like a single value: paramGroupedSlice.callGroupDecorators walks from the requesting scope outward and calls ONE decorator - the nearest that is not already running - and then stops. A decorator that consumes the group pulls the next outer one in while its own arguments are built, so decorators still apply outermost first; a decorator that replaces the group ends the chain. Calling every enclosing decorator runs decorators (and the constructors they need) that the request does not depend on, lets their failures fail it, and lets a decorator registered later in an ancestor break a consumer below a nearer one")
+		fn := c.Fn(rule, "(dig.paramGroupedSlice).callGroupDecorators")
+		if fn == nil {
+			return
+		}
+		calls := an.InvokesOf(fn, "decorator", "Call")
+		if len(calls) == 0 {
+			c.BadAt(rule, "callGroupDecorators calls the nearest group decorator only", "no decorator.Call in callGroupDecorators", c.P.Pos(fn.Pos()), nil)
+			return
+		}
+		good, why := true, ""
+		for _, k := range calls {
+			isCall := func(i ssa.Instruction) bool {
+				for _, k2 := range calls {
+					if i == ssa.Instruction(k2) {
+						return true
+					}
+				}
+				return false
+			}
+			if hit, _ := an.PathTo(fn, k, isCall, nil); hit != nil {
+				good, why = false, "after one decorator was called the walk goes on and calls the decorators of the other enclosing scopes as well"
+			}
+			outward := false
+			for _, l := range allLoops(fn) {
+				// the call that is followed by a break is not in the natural loop (it never returns to the header):
+				// it belongs to the loop when a block of the loop's body other than the header dominates it
+				in := false
+				for b := k.Block(); b != nil && !in; b = b.Idom() {
+					in = l.body[b] && b != l.header
+				}
+				if in && l.header.Comment == "rangeindex.loop" && l.over == "p:c.storesToRoot()" {
+					outward = true
+				}
+				if in && l.header.Comment == "for.loop" && isCountingPhi(l.header.Instrs[len(l.header.Instrs)-1].(*ssa.If).Cond) {
+					outward = true
+				}
+			}
+			if good && !outward {
+				good, why = false, "the walk does not go from the requesting scope outward (storesToRoot in ascending order)"
+			}
+		}
+		c.Check(good, rule, "callGroupDecorators calls the nearest group decorator only", "range storesToRoot: first decorator not on the stack, Call, stop", why+": root Provide(feeder, group g), root Decorate(outer consuming g), child Decorate(inner replacing g), child Invoke(consumer of g) runs outer and feeder although the request does not need them, and fails if one of them fails - the same history with a single value does neither", calls[0], nil)
 	}
 }
